@@ -7,6 +7,7 @@ package http
 //@ smt (define-fun httpTable ((name String) (f Bool) (to Bool) (tmp Bool)) Int (ite (= name "unsupported_media_type") 415 (ite f 500 (ite to (ite tmp 504 408) (ite tmp 503 400)))))
 
 //@ func (*ErrorResponse).StatusCode
+//@   params resp
 //@   property C18 C05
 //@   requires resp != nil
 //@   ensures* table: result == httpTable(resp.Name, resp.Fault, resp.Timeout, resp.Temporary)
@@ -22,6 +23,7 @@ package http
 //@ macro ctOf(h) = select(select(HdrVal, h), canonKey("Content-Type"))
 
 //@ func SetContentType
+//@   params w ct
 //@   property C15
 //@   let h = rwHeader(w)
 //@   let h0 = old(ctOf(h))
@@ -34,6 +36,7 @@ package http
 //@   frameprop C20 C15
 
 //@ func ResponseDecoder
+//@   params resp
 //@   property C15
 //@   requires resp != nil
 //@   let ct0 = old(ctOf(resp.Header))
@@ -43,6 +46,7 @@ package http
 //@   frameprop C20
 
 //@ func RequestDecoder
+//@   params r
 //@   property C15
 //@   requires r != nil
 //@   let ct0 = old(ctOf(r.Header))
@@ -57,6 +61,7 @@ package http
 //@   frameprop C20
 
 //@ func ResponseEncoder
+//@   params ctx w
 //@   property C15
 //@   requires w != nil && ctx != nil
 //@   let h = rwHeader(w)
@@ -77,6 +82,7 @@ package http
 //@   frameprop C20 C15
 
 //@ func RequestEncoder
+//@   params r
 //@   property C15
 //@   requires r != nil
 //@   let ct0 = old(ctOf(r.Header))
@@ -85,6 +91,7 @@ package http
 //@   ensures* kept: ct0 != "" ==> ctOf(r.Header) == ct0
 
 //@ func (*unsupportedDecoder).Decode
+//@   params e _
 //@   property C15
 //@   requires e != nil
 //@   ensures* err: result != nil && asSE(result) != 0 && ptr(*goa.ServiceError, asSE(result)).Name == "unsupported_media_type"
@@ -95,6 +102,7 @@ package http
 // ---- errors on the wire (C05, C18) ----------------------------------------------
 
 //@ func NewErrorResponse
+//@   params ctx err
 //@   property C05 C18
 //@   requires err != nil
 //@   requires asSE(err) != 0 ==> allocated(ptr(*goa.ServiceError, asSE(err)))
@@ -112,6 +120,7 @@ package http
 //@ lemma c18_status_total property C18: forall n String, f Bool, to Bool, tmp Bool :: httpTable(n, f, to, tmp) == 415 || httpTable(n, f, to, tmp) == 500 || httpTable(n, f, to, tmp) == 504 || httpTable(n, f, to, tmp) == 408 || httpTable(n, f, to, tmp) == 503 || httpTable(n, f, to, tmp) == 400
 
 //@ func ErrorEncoder$1
+//@   params ctx w err
 //@   property C05 C20
 //@   requires w != nil && err != nil && encoder != 0
 //@   requires asSE(err) != 0 ==> allocated(ptr(*goa.ServiceError, asSE(err)))
@@ -135,6 +144,7 @@ package http
 //@ macro unesc(s) = ite(decode1Ok(s), decode1(s), s)
 
 //@ func (*mux).resolveWildcard
+//@   params m method pattern
 //@   property C16
 //@   requires m != nil
 //@   ensures* named: inMap(m.wildcards, method + "::" + pattern) ==> result == substr(pattern, 0, len(pattern) - 2) + "/{*" + m.wildcards[method + "::" + pattern] + "}"
@@ -142,6 +152,7 @@ package http
 //@   modifies nothing
 
 //@ func (*mux).Handle
+//@   params m method pattern handler
 //@   property C16 C20
 //@   requires m != nil && m.wildcards != nil && m.Router != nil
 //@   requires select(lockHeld, addr(m.mu)) == 0
@@ -160,6 +171,7 @@ package http
 //@   ensures* fresh.mux: typeIs(result, *mux) && result.(*mux) != nil && result.(*mux).middlewares != nil && result.(*mux).wildcards != nil && len(result.(*mux).wildcards) == 0
 
 //@ func (*mux).Use
+//@   params m f
 //@   property C16 C20
 //@   requires m != nil && m.Router != nil
 //@   requires select(lockHeld, addr(m.mu)) == 0
@@ -175,6 +187,7 @@ package http
 //@ macro varKey(m, r, x, i) = ite(x.URLParams.Keys[i] == "*", m.wildcards[r.Method + "::" + select(chiPat, x)], x.URLParams.Keys[i])
 
 //@ func (*mux).Vars
+//@   params m r
 //@   property C16
 //@   requires m != nil && r != nil && r.URL != nil
 //@   let x = ptr(*chi.Context, chiCtxOf(r.ctx))
@@ -190,6 +203,7 @@ package http
 //@   frameprop C20
 
 //@ func (*mux).ResolvePattern
+//@   params m r
 //@   property C16
 //@   requires m != nil && r != nil && r.URL != nil && r.ctx != nil
 //@   let x = ptr(*chi.Context, chiCtxOf(r.ctx))
@@ -202,6 +216,7 @@ package http
 //@   frameprop C20
 
 //@ func (*mux).Handle$1
+//@   params w req
 //@   property C16 C05
 //@   requires w != nil && req != nil && req.ctx != nil
 //   -- the request context holds no foreign value under goa's content type key
